@@ -781,12 +781,21 @@ fn child(args: &Args) -> Result<()> {
   }
   let mut ctx = Ctx { generations, exec: Executor::new(&dir, timeout) };
   // classes / features already observed to hang (hang budget, maintained by the parent)
-  let skip: BTreeSet<String> = std::fs::read_to_string(args.str("skip", ""))
+  let skip_path = args.str("skip", "");
+  let slow_ms = args.u64("slow-ms", 2_000);
+  let mut skip: BTreeSet<String> = std::fs::read_to_string(&skip_path)
     .unwrap_or_default()
     .lines()
     .map(|l| l.trim().to_string())
-    .filter(|l| !l.is_empty())
+    .filter(|l| !l.is_empty() && !l.starts_with('#'))
     .collect();
+  // "#dim=class" lines carry the number of slow/hung cases seen so far for that class
+  let mut slow_counts: BTreeMap<String, usize> = BTreeMap::new();
+  for l in std::fs::read_to_string(&skip_path).unwrap_or_default().lines() {
+    if let Some(c) = l.strip_prefix('#') {
+      *slow_counts.entry(c.trim().to_string()).or_insert(0) += 1;
+    }
+  }
   let plan = std::fs::read_to_string(&plan_path)?;
   let mut out = std::fs::OpenOptions::new().create(true).append(true).open(&res_path)?;
   for (i, line) in plan.lines().enumerate() {
@@ -804,7 +813,7 @@ fn child(args: &Args) -> Result<()> {
       skip.contains("feat=hist_bounds") && (text.contains("extended_bounds") || text.contains("hard_bounds"))
     };
     let req_json: std::result::Result<Value, String> = match p["src"].as_str().unwrap() {
-      _ if budget_hit => Err("hang budget: class or feature already observed to hang".into()),
+      _ if budget_hit => Err("time budget: class or feature already observed to hang or to be slow".into()),
       "tlc" => instantiate(&mut ctx, idx, &p["cls"], i as u64),
       "rand" => Ok(p["req"].clone()),
       _ => serde_json::from_str::<Value>(p["text"].as_str().unwrap()).map_err(|e| e.to_string()),
@@ -839,6 +848,34 @@ fn child(args: &Args) -> Result<()> {
     };
     writeln!(out, "{res}")?;
     out.flush()?;
+    // time budget: a class (or, for free requests, the syntactic feature) that was seen to hang or
+    // to take longer than `slow_ms` is not paid for again in its remaining combinations
+    let costly = res["outcome"] == "Hang" || res["ms"].as_u64().unwrap_or(0) > slow_ms;
+    if costly {
+      let mut add: Vec<String> = vec![];
+      if p["src"] == "tlc" {
+        let nd = non_default(&p["cls"]);
+        for c in nd.iter() {
+          let n = slow_counts.entry(c.clone()).or_insert(0);
+          *n += 1;
+          add.push(format!("#{c}"));
+          if nd.len() == 1 || *n >= 2 {
+            add.push(c.clone());
+          }
+        }
+      } else if res["feat"]["hist_bounds"] == true {
+        add.push("feat=hist_bounds".into());
+      }
+      if !add.is_empty() {
+        let mut f = std::fs::OpenOptions::new().create(true).append(true).open(&skip_path)?;
+        for a in add {
+          writeln!(f, "{a}")?;
+          if !a.starts_with('#') {
+            skip.insert(a);
+          }
+        }
+      }
+    }
     if ctx.exec.hangs >= 1 {
       // the abandoned worker keeps spinning: let the parent restart a fresh process
       std::process::exit(17);
@@ -1124,9 +1161,6 @@ pub fn main(args: &Args) -> Result<()> {
   let res_path = scratch.join("results.ndjson");
   let skip_path = scratch.join("skip.txt");
   std::fs::write(&skip_path, "")?;
-  let mut skip: BTreeSet<String> = BTreeSet::new();
-  let mut hang_counts: BTreeMap<String, usize> = BTreeMap::new();
-  let mut hangs_seen: BTreeSet<usize> = BTreeSet::new();
   let exe = std::env::current_exe()?;
   let mut start = 0usize;
   let mut aborts: BTreeMap<usize, String> = BTreeMap::new();
@@ -1142,6 +1176,7 @@ pub fn main(args: &Args) -> Result<()> {
       .arg("--skip")
       .arg(&skip_path)
       .args(["--start", &start.to_string(), "--timeout-ms", &timeout_ms.to_string()])
+      .args(["--slow-ms", &args.u64("slow-ms", 2_000).to_string()])
       .stderr(std::process::Stdio::null())
       .status()
       .context("spawning child")?;
@@ -1162,26 +1197,9 @@ pub fn main(args: &Args) -> Result<()> {
           last_begin = Some(b as usize);
         } else if let Some(i) = v.get("i").and_then(|b| b.as_u64()) {
           last_done = Some(i as usize);
-          if v["outcome"] == "Hang" && hangs_seen.insert(i as usize) {
-            // hang budget: do not pay the watchdog again for what is already known to hang
-            let p = &plan[i as usize];
-            if p["src"] == "tlc" {
-              let nd = non_default(&p["cls"]);
-              for c in nd.iter() {
-                let n = hang_counts.entry(c.clone()).or_insert(0);
-                *n += 1;
-                if nd.len() == 1 || *n >= 2 {
-                  skip.insert(c.clone());
-                }
-              }
-            } else if v["feat"]["hist_bounds"] == true {
-              skip.insert("feat=hist_bounds".into());
-            }
-          }
         }
       }
     }
-    std::fs::write(&skip_path, skip.iter().cloned().collect::<Vec<_>>().join("\n"))?;
     match (last_begin, last_done) {
       (Some(b), d) if d != Some(b) => {
         if st.code() != Some(17) {
@@ -1208,6 +1226,12 @@ pub fn main(args: &Args) -> Result<()> {
       results.insert(i as usize, v);
     }
   }
+  let skip: BTreeSet<String> = std::fs::read_to_string(&skip_path)
+    .unwrap_or_default()
+    .lines()
+    .filter(|l| !l.trim().is_empty() && !l.starts_with('#'))
+    .map(|l| l.trim().to_string())
+    .collect();
   let mut tr = Tracer::create(Path::new(&out))?;
   let mut counts: BTreeMap<String, usize> = BTreeMap::new();
   let mut skips: BTreeMap<String, usize> = BTreeMap::new();
